@@ -107,6 +107,11 @@ def bad_frame(kind, c, t, rng=None):
         return b"[1,2,3]"
     if kind == "truncated_json":
         return call("Echo", c, t, 5)[:-3]
+    if kind.startswith("deep_"):
+        # one well-framed Echo call whose v is nested `depth` levels deep (arrays or objects); "parameters"
+        # before "method" (p: serde's adjacently tagged enum buffers the content first) or after it (m)
+        _, depth, shape, first = kind.split("_")
+        return deep_frame(c, int(depth), "[" if shape == "arr" else '{"a":', first == "p")
     if kind.startswith("utf8_"):
         # bytes that are not UTF-8: outside of any string, or inside a string parameter of an otherwise
         # valid call
@@ -130,6 +135,22 @@ def bad_frame(kind, c, t, rng=None):
                 call("Echo", c, t, 5).replace(b'"v"', b'"v' + bad + b'"')
         raise ValueError(kind)
     raise ValueError(kind)
+
+
+def deep_frame(c, depth, opener, params_first):
+    """The frame harness/src/bin/server.rs generates for the event ["deep", c, depth, opener, pfirst]."""
+    closer = "]" if opener.startswith("[") else "}"
+    v = opener * depth + "1" + closer * depth
+    params = '"parameters":{"c":%d,"t":999999,"v":%s}' % (c, v)
+    method = '"method":"org.zv.Echo"'
+    return ("{%s,%s}" % ((params, method) if params_first else (method, params))).encode()
+
+
+READ_KINDS = ["Interrupted", "WouldBlock", "TimedOut", "ConnectionReset", "UnexpectedEof", "Other"]
+
+
+def fr(c, kind=None, persistent=False):
+    return ["fr", c] + ([kind, 1 if persistent else 0] if kind else [])
 
 
 def wire(frames):
@@ -433,7 +454,7 @@ RULE = ("a case = an environment script (connects, byte arrivals, faults, stream
 
 
 # ---------------------------------------------------------------- production buffer limit (no hook cfg)
-def run_nohook(ck, cases):
+def run_nohook(ck, cases, one_process_per_case=False):
     """Run cases on the server harness built WITHOUT `--cfg zlink_verif` (production MAX_BUFFER_SIZE), for
     inputs far above the hook-lowered limit.  No Coq evaluation here (sizes): the caller compares results."""
     import os
@@ -447,7 +468,8 @@ def run_nohook(ck, cases):
         return None
     for i, c in enumerate(cases):
         c["id"] = i
-    return ck.harness_run(os.path.join(root, "target-nohook", "debug", "server"), cases, shards=8)
+    return ck.harness_run(os.path.join(root, "target-nohook", "debug", "server"), cases,
+                          shards=len(cases) if one_process_per_case else 8)
 
 
 def big_call(c, t, total, v=1):
